@@ -79,8 +79,6 @@ func t2showGlyph(g *cff.Glyph) string {
 		t2unitsList(g.VStem), strings.Join(cmds, ";"))
 }
 
-var t2wfExpect = map[string]string{}
-
 // ---------------------------------------------------------------- case line <-> environment
 
 type t2env struct {
@@ -167,9 +165,13 @@ func init() {
 	ops["t2.dec"] = dec
 	ops["t2.spec"] = dec
 	ops["t2.wf"] = func(f Fields) string {
-		// the generator's claim (recorded at generation time); a replayed line without a claim is "nowf"
-		if d, ok := t2wfExpect[f["code"]]; ok {
-			return d
+		// the generator's claim travels in the case line (claim=wf+agrees|wf|nowf), so corpus and replay
+		// lines work; the Lean driver evaluates wfCheck(P) / agreesCheck(P) on the bytes and must agree
+		switch f["claim"] {
+		case "wf+agrees":
+			return "wf agrees"
+		case "wf":
+			return "wf"
 		}
 		return "nowf"
 	}
@@ -306,7 +308,7 @@ func (g *t2g) operand(v int64) {
 	st := func(n string) { g.c.Stat("t2.expression", n) }
 	small := func(x int64) bool { return x > -32000*65536 && x < 32000*65536 }
 	k := r.Intn(17)
-	if g.pure && (k == 4 || k == 5 || k == 8 || k == 11 || k == 12 || k >= 14) {
+	if g.pure && (k == 4 || k == 5 || k == 8 || k == 11 || k == 12 || k == 14) {
 		k = Pick(r, []int{2, 3, 6, 7, 9, 10, 13})
 	}
 	switch k {
@@ -506,7 +508,6 @@ func (g *t2g) operand(v int64) {
 		if g.env.ns > 0 || g.env.ng > 0 {
 			// the operand comes out of a subroutine: `v return`
 			st("subr-operand")
-			g.noWF = true
 			save := g.buf
 			g.buf = nil
 			g.operand(v)
@@ -554,9 +555,10 @@ func (g *t2g) call(body []byte) {
 	}
 	g.env.setSubr(glob, idx, body)
 	g.nsubr++
-	g.noWF = true
-	g.lit(int64(idx-t2bias(n)) * 65536)
-	g.depth--
+	g.emit(t2num(int64(idx-t2bias(n))*65536, 0)...) // canonical operand of the call
+	if g.depth+1 > 48 {
+		g.noWF = true
+	}
 	if glob {
 		g.emit(29)
 	} else {
@@ -737,8 +739,12 @@ var t2tableSizes = []int{0, 0, 0, 1, 2, 5, 107, 108, 1239, 1240, 1241, 33899, 33
 func genT2prog(c *Ctx, big bool) t2prog {
 	r := c.Rng
 	env := newT2env()
-	pure := !big && r.Chance(1, 3)
-	if !pure && r.Chance(2, 3) {
+	mode := r.Intn(3) // 0: static grammar without calls, 1: static grammar with stack-neutral subroutines, 2: free
+	if big {
+		mode = 2
+	}
+	pure := mode != 2
+	if mode == 1 || (mode == 2 && r.Chance(2, 3)) {
 		env.ns = Pick(r, t2tableSizes)
 		env.ng = Pick(r, t2tableSizes)
 	}
@@ -959,10 +965,12 @@ func genT2(c *Ctx) {
 				dom = "wf"
 				c.Stat("t2.theorem-domain", "WF only (C05_progress applies; add/sub/mul/flex1/hflex1 present)")
 			default:
-				c.Stat("t2.theorem-domain", "outside WF (subroutines, div/sqrt/put/get/index/roll, non-canonical or big literal)")
+				c.Stat("t2.theorem-domain", "outside WF (div/sqrt/put/get/index/roll, non-canonical or big literal, free-mode program)")
 			}
-			t2wfExpect[hx(p.code)] = dom
-			c.Case(Verdict, "t2.wf", "code="+hx(p.code), len(p.code) > 8)
+			if p.nsubr > 0 {
+				c.Stat("t2.theorem-domain-calls", dom+" with "+bucket(p.nsubr)+" subroutine calls")
+			}
+			c.Case(Verdict, "t2.wf", p.env.args(p.code)+" claim="+strings.ReplaceAll(dom, " ", "+"), len(p.code) > 8)
 			if p.dOK {
 				c.Case(Direct, "t2.spec", p.env.args(p.code), len(p.code) > 8)
 				if !strings.HasPrefix(out, "ok") {
@@ -1207,6 +1215,35 @@ func genT2fixed(c *Ctx) {
 		c.Case(Verdict, "t2.dec", newT2env().args(code), true)
 		c.Case(Direct, "t2.rejects", newT2env().args(code), true)
 	}
+	// corners of TN5177 that lie outside the domain of the whole-program theorems: each is compared with the
+	// specification interpreter once per run (a difference would be a finding)
+	for name, code := range map[string][]byte{
+		"seac-style endchar with 4 operands":          cat(num(0), num(0), num(65), num(66), []byte{14}),
+		"width + seac-style endchar (5 operands)":     cat(num(500), num(0), num(0), num(65), num(66), []byte{14}),
+		"deprecated dotsection":                       cat(mv, num(1), num(2), []byte{12, 0}, num(3), []byte{6, 14}),
+		"flex with depth operand 0 / 1000":            cat(mv, rep(12, num(5)), num(0), []byte{12, 35}, rep(12, num(4)), num(1000), []byte{12, 35, 14}),
+		"vstem operands directly on hintmask, no hstem": cat(num(10), num(20), []byte{19, 0x80}, mv, []byte{14}),
+		"width + cntrmask with implicit vstem":         cat(num(300), num(10), num(20), []byte{1}, num(5), num(6), []byte{20, 0xc0}, mv, []byte{14}),
+		"random as an operand":                         cat([]byte{12, 23, 12, 23}, []byte{21, 14}),
+		"hstem after vstem":                            cat(num(1), num(2), []byte{3}, num(3), num(4), []byte{1}, mv, []byte{14}),
+		"two movetos, no drawing":                      cat(mv, mv, []byte{14}),
+	} {
+		c.Stat("t2.outside-theorem-probe", name)
+		c.Case(Verdict, "t2.dec", newT2env().args(code), true)
+		c.Case(Direct, "t2.spec", newT2env().args(code), true)
+	}
+	for name, code := range map[string][]byte{
+		"hintmask before any stem": {19, 0x80, 14},
+		"stem after hintmask":      cat(num(1), num(2), []byte{1, 19, 0x80}, num(3), num(4), []byte{1, 14}),
+	} {
+		c.Stat("t2.outside-theorem-probe", name+" (must be rejected)")
+		c.Case(Verdict, "t2.dec", newT2env().args(code), true)
+		c.Case(Direct, "t2.rejects", newT2env().args(code), true)
+	}
+	// known operand-count leniency (documented in cfg partial, not a fault class of C05_rejects): the Go decoder
+	// accepts, the specification rejects; compared with the model only
+	c.Stat("t2.outside-theorem-probe", "endchar with 2 operands (Go lenient: accepts; specification: operand-count error)")
+	c.Case(Verdict, "t2.dec", newT2env().args(cat(num(1), num(2), []byte{14})), true)
 	// hvcurveto / vhcurveto trailing operand, all curve operators with n and n+1 operands
 	for _, op := range []byte{31, 30, 27, 26} {
 		for _, k := range []int{4, 5, 8, 9, 12, 13} {
